@@ -15,6 +15,7 @@ pub mod c11;
 pub mod c12;
 pub mod c13;
 pub mod c14;
+pub mod c15;
 pub mod srch;
 pub mod mate;
 pub mod refsearch;
@@ -53,6 +54,7 @@ pub fn lookup(id: &str) -> Option<Property> {
         "C12" => prop!("C12", c12),
         "C13" => prop!("C13", c13),
         "C14" => prop!("C14", c14),
+        "C15" => prop!("C15", c15),
         "C17" => prop!("C17", c17),
         _ => return None,
     })
